@@ -576,6 +576,11 @@ class NPMixin:
                 raise Unsupported('record %s has no attribute %s' % (b.cls, n.attr))
             if isinstance(b, (Func, Opaque, Str, Tup, MaskedSel, Metric)) or isinstance(b, tuple):
                 yield st1, Func('method:' + n.attr, bound=base); continue
+            if is_sym(b) and b.sort().name() == 'Obj':
+                # opaque object (matrix, mapping, callable...): attributes are uninterpreted functions of it
+                if n.attr == 'shape':
+                    yield st1, Tup([z3.Function('NROWS', b.sort(), z3.IntSort())(b), z3.Function('NCOLS', b.sort(), z3.IntSort())(b)]); continue
+                yield st1, z3.Function('ATTR_' + n.attr, b.sort(), b.sort())(b); continue
             raise Unsupported('attribute %s of %r' % (n.attr, b))
 
     def method_key(self, rec, attr):
@@ -735,6 +740,14 @@ class NPMixin:
             raise Unsupported('call of unknown function %s (no contract, no primitive)' % f.name)
         if isinstance(f, KindTag):
             yield st, argv[0] if argv else 0
+            return
+        if is_sym(f) and f.sort().name() == 'Obj':
+            # an opaque callable applied to opaque / scalar arguments: uninterpreted application (deterministic)
+            zs = [to_z3(a) for a in argv] + [to_z3(kw[k]) for k in sorted(kw)]
+            if not all(is_sym(z) for z in zs):
+                raise Unsupported('opaque call with non-scalar arguments')
+            fn = z3.Function('APPLY%d_%s' % (len(zs), '_'.join(str(z.sort()) for z in zs)), f.sort(), *[z.sort() for z in zs], f.sort())
+            yield st, fn(f, *zs)
             return
         raise Unsupported('call of %r' % (f,))
 
